@@ -2,6 +2,7 @@ package main
 
 import (
 	"fmt"
+	"go/token"
 	"go/types"
 	"regexp"
 	"strings"
@@ -465,10 +466,10 @@ func underMakeInterface(v ssa.Value) ssa.Value {
 // fields that are deterministic functions of the previous block — dropping one misclassifies evidence that
 // differs only there (a lunatic attack is treated as equivocation and the guilty set is wrong);
 // (b) on restart every pending item is reloaded (no byte cap: the cap is for what goes into one block);
-// (c) the next pruning point is when the *oldest remaining evidence* expires (its own height + max age),
+// (c) [superseded by F50, see below] the next pruning point is when the *oldest remaining evidence* expires (its own height + max age),
 // not max age from now — otherwise expired evidence stays pending, is proposed and is accepted in blocks.
 func init() {
-	register("C11", "R9", "K4+K5", "attack classification compares all five derived header fields; restart reloads all pending evidence; pruning is rescheduled from the oldest remaining evidence", 8, func(c *Ctx) {
+	register("C11", "R9", "K4+K5", "attack classification compares all five derived header fields; restart reloads all pending evidence; a non-empty pool is scanned for expired evidence after every block", 8, func(c *Ctx) {
 		w := c.W
 		if f := c.fn("types", "LightClientAttackEvidence.ConflictingHeaderIsInvalid"); f != nil {
 			fk := funcKey(f)
@@ -505,24 +506,48 @@ func init() {
 			}
 			c.Check(n == 1, funcKey(f)+" :: reload of pending evidence found", w.pos(f.Pos()), "1", fmt.Sprintf("%d", n))
 		}
-		if f := c.fn("evidence", "Pool.removeExpiredPendingEvidence"); f != nil {
+		// (c) F50: whether a pending item has expired depends on the new state's height, time and evidence
+		// parameters. Update used to skip the scan unless the state was strictly beyond a cached point, which
+		// was one block (and one second) late and blind to parameter changes: expired evidence was still
+		// proposed and accepted. The scan for expired evidence runs after every block that leaves anything
+		// pending: no other condition may stand between a non-empty pool and the scan. (The schedule the scan
+		// returns is no longer consulted; nothing is demanded of it.)
+		if f := c.fn("evidence", "Pool.Update"); f != nil {
 			fk := funcKey(f)
-			n := 0
-			for _, r := range returnsOf(f) {
-				ret := r.(*ssa.Return)
-				h := w.arith(ret.Results[0])
-				if !strings.Contains(h, "MaxAgeNumBlocks") {
+			scans := w.callsTo(f, "evidence#Pool.removeExpiredPendingEvidence")
+			c.Check(len(scans) == 1, fk+" :: scan for expired evidence found", w.pos(f.Pos()), "1", fmt.Sprintf("%d", len(scans)))
+			isScan := func(in ssa.Instruction) bool {
+				call, ok := in.(ssa.CallInstruction)
+				return ok && w.isCall(call, "evidence#Pool.removeExpiredPendingEvidence")
+			}
+			// edges on which the pool is known to be empty need no scan
+			empty := map[Edge]bool{}
+			for _, ea := range condEdges(f) {
+				if ea.A.Kind != "cmp" {
 					continue
 				}
-				n++
-				mh := regexp.MustCompile(`^\(\((.+)\.Height\(\) \+ .+\.Evidence\.MaxAgeNumBlocks\) \+ 1\)$`).FindStringSubmatch(h)
-				okH := mh != nil && !strings.Contains(mh[1], "State()") && !strings.Contains(mh[1], "LastBlock")
-				c.Check(okH, fk+" :: next pruning height is the expiry of the oldest remaining evidence", w.ipos(ret), "ev.Height() + MaxAgeNumBlocks + 1", "next pruning height is "+h)
-				t := w.expr(ret.Results[1])
-				mt := regexp.MustCompile(`^(.+)\.Time\(\)\.Add\(.+\.Evidence\.MaxAgeDuration\)`).FindStringSubmatch(t)
-				c.Check(mt != nil && mh != nil && mt[1] == mh[1], fk+" :: next pruning time is the expiry of the same evidence", w.ipos(ret), "ev.Time() + MaxAgeDuration", "next pruning time is "+t)
+				x, y := w.expr(ea.A.X), w.expr(ea.A.Y)
+				isSize := func(s string) bool { return regexp.MustCompile(`^\w+\.Size\(\)$`).MatchString(s) }
+				if (isSize(x) && y == "0" && (ea.A.Op == token.LEQ || ea.A.Op == token.EQL)) || (isSize(y) && x == "0" && (ea.A.Op == token.GEQ || ea.A.Op == token.EQL)) {
+					empty[ea.E] = true
+				}
 			}
-			c.Check(n == 1, fk+" :: reschedule exit found", w.pos(f.Pos()), "1", fmt.Sprintf("%d", n))
+			// start after the committed evidence was marked (the last step before pruning)
+			for _, mark := range w.callsTo(f, "evidence#Pool.markEvidenceAsCommitted") {
+				qq := &pathQ{blocked: func(e Edge) bool { return empty[e] }, kill: isScan, target: isReturn}
+				mi := 0
+				for i, in := range mark.Block().Instrs {
+					if in == ssa.Instruction(mark) {
+						mi = i + 1
+					}
+				}
+				hit, path := qq.reach(mark.Block(), mi)
+				pos := w.ipos(mark)
+				if hit != nil {
+					pos = w.ipos(hit)
+				}
+				c.Check(hit == nil, fk+" :: a non-empty pool is scanned for expired evidence after every block", pos, "Size() > 0 ⇒ removeExpiredPendingEvidence()", "Update can return with evidence pending and without looking for expired items ("+pathStr(w, path)+"): an item that expired with this block stays pending, is proposed and is accepted in a block")
+			}
 		}
 	})
 }
